@@ -30,6 +30,17 @@ def c12_jobs(rng, quick):
             add("aztec", bytes(rng.choice(b"abc XYZ012.,") for _ in range(n)), (pct, 0))
         for req in ([-2, 3, 9] if quick else [-4, -3, -2, -1, 1, 2, 3, 5, 8, 9, 15, 22, 23, 32]):
             add("aztec", "Az1", (pct, req))
+    # explicit layer requests filled close to what the requested size can hold, with payloads that need much bit stuffing
+    # (long runs of equal bits): the check-word share is smallest exactly at that boundary
+    for req in ([-2, -4, 2, 4, 7] if quick else [-1, -2, -3, -4, 1, 2, 3, 4, 5, 6, 8, 9, 12, 16, 22, 23, 27, 32]):
+        L, compact = abs(req), req < 0
+        tot = ((88 if compact else 112) + 16 * L) * L
+        for pct in ((23, 33) if quick else (0, 10, 23, 33, 50, 100)):
+            base = tot / (1 + pct / 100.0) / 8.0
+            for frac in ((0.80, 0.86, 0.90, 0.94, 0.98) if quick else (0.70, 0.76, 0.80, 0.83, 0.86, 0.88, 0.90, 0.92, 0.94, 0.96, 0.98, 1.0)):
+                n = max(1, int(base * frac) - 3)
+                for fill in ((0x00,), (0xFF,), (0x00, 0xFF)) if not quick else ((0x00,), (0xFF,)):
+                    add("aztec", bytes(fill[i % len(fill)] for i in range(n)), (pct, req))
     for n in (C02.NDATA if not quick else C02.NDATA[:16] + [1050, 1558]):
         add("dm", C02.recipe(rng, 1, n), ())
     return jobs
